@@ -4,6 +4,7 @@ import (
 	"bytes"
 	"context"
 	"crypto/ed25519"
+	"encoding/base64"
 	"encoding/json"
 	"errors"
 	"fmt"
@@ -898,6 +899,25 @@ func (c *c15) opSendJoin() {
 	raw := append([]byte{}, ev.JSON()...)
 	if sh.sigFault != "" {
 		raw = rm.sigFault(ev, sh.sigFault, string(sh.signer.Name))
+	}
+	// Not faults, so acceptance stays due: a replayed send_join (the user is
+	// already joined), and an event that arrives with something under the
+	// resident's own name among its signatures - a forgery, or a signature
+	// under a key the resident has since rotated away. What comes back must
+	// still carry a valid signature of the resident.
+	if t.Chance(150) {
+		q.mem, q.memLie = qLie, "join"
+		r.Probe("send_join_replayed_user_already_joined")
+	}
+	if t.Chance(150) {
+		sigs := getSigs(raw)
+		kid := sim.Pick(t, []string{string(rm.R().Current().ID), "ed25519:retired"})
+		if sigs[string(rm.R().Name)] == nil {
+			sigs[string(rm.R().Name)] = map[string]string{}
+		}
+		sigs[string(rm.R().Name)][kid] = base64.RawStdEncoding.EncodeToString(world.CompactBytes(t, "forged-local-signature", 64))
+		raw = setSigs(raw, sigs)
+		r.Probe("send_join_carries_signature_under_resident_name")
 	}
 	submitted := append([]byte{}, raw...)
 	if pathRoom == "" {
